@@ -586,6 +586,8 @@ func TestVerifC29(t *testing.T) { //nolint:gocyclo,cyclop,maintidx
 			run.Sample(map[string]any{"track": tc.cap.MimeType, "contexts": c29Describe(ctxs), "n_ops": len(ops), "first_ops": first})
 		}
 	})
+	// concurrent part: Unbind issued while a write is in the middle of its fan-out (c29_conc_test.go)
+	c29Concurrent(run, n, kit.N(200, 5000))
 }
 
 func c29Coarse(cls string) string {
